@@ -59,6 +59,9 @@ func constMsg(c *ssa.CallCommon) string {
 			return strconv.Quote(s)
 		}
 	}
+	if len(c.Args) > 0 {
+		return NewTermer().Of(c.Args[0]).Brief()
+	}
 	return ""
 }
 
@@ -312,6 +315,23 @@ type guardInfo struct{ guarded bool; how string }
 
 // dominating conditions: yields (rel, truth) for every branch condition known at block b.
 func dominatingConds(b *ssa.BasicBlock, tm *termer, f func(rel *Term, truth bool) bool) {
+	dominatingCondsEdge(b, nil, tm, f)
+}
+
+// dominatingCondsEdge additionally includes the condition of the edge b -> to (when b ends in an If).
+func dominatingCondsEdge(b, to *ssa.BasicBlock, tm *termer, f func(rel *Term, truth bool) bool) {
+	if to != nil && len(b.Instrs) > 0 {
+		if iff, ok := b.Instrs[len(b.Instrs)-1].(*ssa.If); ok && b.Succs[0] != b.Succs[1] {
+			rel, pol := Cond(tm.Of(iff.Cond))
+			edge := 1
+			if b.Succs[0] == to {
+				edge = 0
+			}
+			if f(rel, (edge == 0) == pol) {
+				return
+			}
+		}
+	}
 	for cur := b; cur != nil; cur = cur.Idom() {
 		d := cur.Idom()
 		if d == nil || len(d.Instrs) == 0 {
@@ -353,6 +373,51 @@ func isLenOf(t *Term, x string) bool {
 
 // indexGuard decides whether an index/slice expression on X with index idx is structurally guarded.
 func indexGuard(fn *ssa.Function, in ssa.Instruction, X, idx ssa.Value, tm *termer) guardInfo {
+	g := indexGuardAt(fn, in, in.Block(), nil, X, idx, tm)
+	if g.guarded {
+		return g
+	}
+	// a merged index (non-loop phi): every incoming value must be guarded on its own edge
+	if ph, ok := idx.(*ssa.Phi); ok && len(ph.Edges) > 0 {
+		self := false
+		for _, e := range ph.Edges {
+			if dependsOn(e, ph, 0) {
+				self = true
+			}
+		}
+		if !self {
+			for i, e := range ph.Edges {
+				pred := ph.Block().Preds[i]
+				ge := indexGuardAt(fn, in, pred, ph.Block(), X, e, tm)
+				if !ge.guarded {
+					return guardInfo{}
+				}
+			}
+			return guardInfo{true, "G4 every merged index value guarded on its edge"}
+		}
+	}
+	return g
+}
+
+func dependsOn(v ssa.Value, target ssa.Value, depth int) bool {
+	if v == target {
+		return true
+	}
+	if depth > 6 {
+		return false
+	}
+	if in, ok := v.(ssa.Instruction); ok {
+		var ops [8]*ssa.Value
+		for _, op := range in.Operands(ops[:0]) {
+			if op != nil && *op != nil && dependsOn(*op, target, depth+1) {
+				return true
+			}
+		}
+	}
+	return false
+}
+
+func indexGuardAt(fn *ssa.Function, in ssa.Instruction, at, edgeTo *ssa.BasicBlock, X, idx ssa.Value, tm *termer) guardInfo {
 	xt := tm.Of(X)
 	xs := xt.String()
 	// fixed-size array with constant index
@@ -413,7 +478,7 @@ func indexGuard(fn *ssa.Function, in ssa.Instruction, X, idx ssa.Value, tm *term
 	}
 	is := it.String()
 	res := guardInfo{}
-	dominatingConds(in.Block(), tm, func(rel *Term, truth bool) bool {
+	dominatingCondsEdge(at, edgeTo, tm, func(rel *Term, truth bool) bool {
 		if len(rel.Args) != 2 {
 			return false
 		}
